@@ -24,6 +24,8 @@ pub struct BArgs {
 }
 pub struct Work(u64);
 pub struct Freeze;
+/// a handler that takes this long and then finishes (mode "thaw")
+pub struct SlowFor(Duration);
 
 impl Actor for B {
     type Args = BArgs;
@@ -40,6 +42,13 @@ impl Message<Work> for B {
             self.handled.fetch_add(1, Ordering::SeqCst);
         }
         m.0 + 1
+    }
+}
+
+impl Message<SlowFor> for B {
+    type Reply = ();
+    async fn handle(&mut self, m: SlowFor, _r: &ActorRef<Self>) {
+        tokio::time::sleep(m.0).await;
     }
 }
 
@@ -100,7 +109,7 @@ fn the_call(r: &ActorRef<B>, c: &Case, t: Duration) -> &'static str {
 type Made = (ActorRef<B>, JoinHandle<ActorResult<B>>);
 
 /// bring the actor into the state the case asks for (runs on the actor's home runtime)
-async fn setup(mode: String, args: BArgs) -> Made {
+async fn setup(mode: String, args: BArgs, t: Duration) -> Made {
     let (r, jh) = rsactor::spawn_with_mailbox_capacity::<B>(args, 1);
     let probe: ActorWeak<B> = ActorRef::downgrade(&r);
     match mode.as_str() {
@@ -124,6 +133,18 @@ async fn setup(mode: String, args: BArgs) -> Made {
             if mode == "full" {
                 let _ = r.tell(Work(0)).await;
             }
+        }
+        "thaw" => {
+            // busy for 0.8 T in a handler that then finishes; behind it, filling the only slot, a message whose handler never
+            // finishes: the slot becomes free before the deadline, a reply does not come
+            let _ = r.tell(SlowFor(t.mul_f64(0.8))).await;
+            for _ in 0..2000 {
+                if probe.__verif_counts().1 == 1 {
+                    break;
+                }
+                tokio::time::sleep(Duration::from_micros(200)).await;
+            }
+            let _ = r.tell(Freeze).await;
         }
         _ => {
             // make sure the actor is up and idle
@@ -152,14 +173,14 @@ fn run_case(c: Case, t_us: u64, other: Handle) -> Value {
     let mut caller_rt: Option<Runtime> = None;
     match c.ctx.as_str() {
         "thread" => {
-            let made = other.block_on(setup(c.mode.clone(), args));
+            let made = other.block_on(setup(c.mode.clone(), args, t));
             let _ = atx.send(made.0.clone());
             std::thread::spawn(move || call(made.0));
         }
         "spawn_blocking" | "mt_worker" | "mt1_worker" => {
             let workers = if c.ctx == "mt1_worker" { 1 } else { 2 };
             let rt = Builder::new_multi_thread().worker_threads(workers).enable_time().build().unwrap();
-            let made = if c.home == "caller_rt" { rt.block_on(setup(c.mode.clone(), args)) } else { other.block_on(setup(c.mode.clone(), args)) };
+            let made = if c.home == "caller_rt" { rt.block_on(setup(c.mode.clone(), args, t)) } else { other.block_on(setup(c.mode.clone(), args, t)) };
             let _ = atx.send(made.0.clone());
             if c.ctx == "spawn_blocking" {
                 rt.spawn_blocking(move || call(made.0));
@@ -170,14 +191,14 @@ fn run_case(c: Case, t_us: u64, other: Handle) -> Value {
         }
         _ => {
             // an async task of a current-thread runtime: this thread is the runtime's only driver
-            let premade = if c.home == "other" { Some(other.block_on(setup(c.mode.clone(), args.clone()))) } else { None };
+            let premade = if c.home == "other" { Some(other.block_on(setup(c.mode.clone(), args.clone(), t))) } else { None };
             let mode = c.mode.clone();
             std::thread::spawn(move || {
                 let rt = Builder::new_current_thread().enable_time().build().unwrap();
                 rt.block_on(async move {
                     let made = match premade {
                         Some(m) => m,
-                        None => setup(mode, args).await,
+                        None => setup(mode, args, t).await,
                     };
                     let _ = atx.send(made.0.clone());
                     call(made.0);
@@ -193,7 +214,13 @@ fn run_case(c: Case, t_us: u64, other: Handle) -> Value {
         }
     }
     // a timed call must be back by T (+ slack); an untimed one that has not returned after a while is "blocked"
-    let limit = if c.form == "timed" { t + Duration::from_millis(1500) } else { Duration::from_millis(400) };
+    let limit = if c.form == "timed" {
+        t + Duration::from_millis(1500) + if c.mode == "thaw" { t } else { Duration::ZERO }
+    } else if c.mode == "thaw" {
+        t + Duration::from_millis(400) // an untimed tell returns when the slot is freed (0.8 T)
+    } else {
+        Duration::from_millis(400)
+    };
     let (res, us) = match rx.recv_timeout(limit) {
         Ok((r, us)) => (r, us as u64),
         Err(_) => ("blocked", 0),
